@@ -279,6 +279,11 @@ def drive_and_validate(prop, tier, exe, script_lines, module="TraceCore.tla", cf
     """shard, drive, validate.  Returns (verdicts merged, outdir, shard files)"""
     od = os.path.join(ROOT, "out", prop, tier)
     os.makedirs(od, exist_ok=True)
+    if tier != "quick":
+        # thorough scenarios are long (thousands of logged values per call): many small traces instead of 16 huge ones,
+        # and fewer validators at a time, so that TLC's heap (one trace is deserialised at once) stays inside the machine
+        nscn0 = sum(1 for ln in script_lines if ln.startswith("scn "))
+        nshards = max(nshards, min(384, nscn0 // 24))
     shards, nscn = split_scenarios(script_lines, nshards)
     jobs = []
     for i, sh in enumerate(shards):
@@ -297,7 +302,7 @@ def drive_and_validate(prop, tier, exe, script_lines, module="TraceCore.tla", cf
         v["script"] = sp
         v["trace"] = ep
         return v
-    vs = parallel(jobs, one)
+    vs = parallel(jobs, one, nproc=NPROC if tier == "quick" else max(4, NPROC // 2))
     merged = {"bad": [], "scenarios": 0, "events": 0, "lines": 0, "tlc_states": 0, "restarts": 0}
     for v in vs:
         for b in v["bad"]:
@@ -350,6 +355,10 @@ def confirm_bad(prop, tier, exe, bad, module="TraceCore.tla", cfg="TraceCore.cfg
                         efmt = e2.get("afmt")
             if efmt and "fmt" not in r["cfg"]:
                 r["cfg"]["fmt"] = efmt
+            # length of the file the rejected call was given (known findings about tiny files are keyed by it)
+            for e2 in evs:
+                if e2.get("i") == bi and "flen" in e2:
+                    r["evflen"] = e2["flen"]
             return r
         return None
     return [r for r in parallel(jobs, one) if r]
@@ -364,6 +373,8 @@ def finish(prop, tier, level, coverage, t0, confirmed, sigfn=None, assumptions=N
         sig = dict(r.get("cfg", {}))
         sig["why"] = r.get("why2", r.get("why"))
         sig["op"] = r.get("op")
+        if "evflen" in r:
+            sig["evflen"] = r["evflen"]
         if _num(sig.get("fmt")) is not None:
             sig["major"] = (_num(sig["fmt"]) >> 16) & 0xFFF
             sig["sub"] = _num(sig["fmt"]) & 0xFFFF
